@@ -18,10 +18,12 @@ remap_control_matrix_model remap_ff_incomplete_basis_counterexample remap_filter
 remap_filter_function_complete remap_filter_function_compose remap_id remap_id_labels remap_isEigh
 remap_isEigh_gen remap_liouville remap_liouville_model remap_liouville_swap remap_propagators
 remap_propagators_gen remap_scatter_gather remap_segProp remap_segProp_gen remap_total_propagator
-swapFin_apply swap_kron swap_kronFin swap_product_basis tensor_transpose_pi'''.split()
+swapFin_apply swap_kron swap_kronFin swap_product_basis tensor_transpose_pi'''.split() + ['FFVerif.C05d.' + t for t in '''remap_keeps_diag remap_cm_iff remap_omega_iff
+remap_lazy_iff remap_not_pauli_blocks_auto'''.split()]
+LEAN_MODULES = ['FFVerif.Props.C06', 'FFVerif.Props.C05d']
 PINS = ['pinRemap']
 GEN_SITES = ['einsum:numeric_calculate_control_matrix_from_scratch_0']
-COMPONENTS = ['pauli_remap']
+COMPONENTS = ['pauli_remap', 'remap_decision']
 RULES = ['correspondence: remap_pauli_basis_elements vs the Lean index map for all permutations, '
          'n <= 4; search: remap() for n = 2..3 (thorough: 4) qubits, all permutations, identifier '
          'mappings incl. ones that change the sort order, traceless and non-traceless noise '
@@ -33,7 +35,23 @@ ASSUMPTIONS = ['NumPy argsort is an unstable sort; identifiers are distinct so t
 TRUSTED = ['modelled not verified: identifier mapping dictionaries of remap (covered by search)']
 
 
+def decision_correspondence(ctx):
+    """which cached quantities `remap` carries over (diagonalisation, total propagator, control
+    matrix, frequencies, total phases, filter function, Liouville propagator; lazily or not) vs the
+    Lean model `ExtendLogic.remapLogic`, and `extend` through `remap`"""
+    from . import extendlogic
+    n, counts, mism = extendlogic.run(120 if ctx.tier == 'quick' else 3000,
+                                      int(ctx.rng('decision').integers(0, 2**31)))
+    mism = [m for m in mism if m['kind'] != 'extend']
+    ctx.stat('remap_decisions', counts.get('remap', 0))
+    for _ in range(counts.get('remap', 0)):
+        ctx.count()
+    ctx.oblige('correspondence:remap_decision', 'correspondence', not mism,
+               f'{len(mism)} remap decisions disagree; first: {mism[:2]}')
+
+
 def correspondence(ctx):
+    decision_correspondence(ctx)
     lines, refs = [], []
     for N in range(1, 5):
         for p in itertools.permutations(range(N)):
